@@ -1,3 +1,237 @@
-(* placeholder: theorems follow *)
-From CC Require Import Model.Circuit.
-Example C19_model_runs : True. Proof. exact I. Qed.
+(* C19 — Descriptions with duplicate element identifiers, a reference node that touches no element, more than one ground,
+   negative resistance / conductance / capacitance / inductance / frequency / rated power / rated voltage, unknown
+   element or waveform types, or missing fields are rejected with an exception when they are constructed or loaded,
+   wherever in the list the offending item occurs.  Queries for unknown element or node identifiers raise instead of
+   returning a value, and a description that is accepted is stored unaltered.
+   Statements only; every proof is [exact <lemma>].  Models: Model/Network.v (Network.__post_init__ = validate, the
+   queries), Model/Circuit.v (Circuit.__post_init__ = ground_node), Model/Loaders.v (the component constructors as an
+   interpreter of Gen.Tables.component_ctors, load_network, generate_component, undictify_circuit).
+   Exceptions: EFloatingGround = FloatingGroundNode, EAmbiguousIDs = AmbiguousBranchIDs, EMultipleGround =
+   MultipleGroundNodes, EAmbiguousComponent = AmbiguousComponentID, EValue = ValueError, ETypeError = TypeError,
+   EFileExists = FileExistsError (what load_network turns a KeyError into), EUnknownWavetype, EUnidentified =
+   UnidentifiedComponent, EIncorrectInfo = IncorrectComponentInformation, EUnknownComponent = UnknownCircuitComponent,
+   EKeyError = KeyError. *)
+From Coq Require Import List Bool ZArith NArith QArith Qcanon String.
+From CC Require Import Theory.Field Theory.Complex Theory.Labels Model.Network Gen.Tables Model.Circuit Model.RunCircuit
+  Model.Loaders Theory.LoadersThm.
+Import ListNotations.
+
+(* ================= A. sign rules of the component constructors (read from the generated table) ================= *)
+(* [run_ctor R leb c kw] : the constructor [c] of components.py called with keyword arguments [kw];
+   [ltb0 x] : x < 0.  For EVERY constructor and EVERY parameter it guards: starting from any accepted call, the same call
+   with that parameter negative raises ValueError ... *)
+Theorem C19_sign_negative : forall (R : fops) (leb : R -> R -> bool) (c : ctor) (p : label) (kw : dict (jval R)) (cmp : lcomp R) (x : R),
+  In c component_ctors -> In p (c_guards c) -> run_ctor R leb c kw = Ok cmp -> ltb0 R leb x = true ->
+  run_ctor R leb c (dset kw p (JNum x)) = Err EValue.
+Proof. exact sign_negative. Qed.
+Print Assumptions C19_sign_negative.
+(* ... and with that parameter zero it is accepted: same type, identifier and terminals, and 0 is stored under the
+   key(s) the table says the parameter is written to (there is such a key) *)
+Theorem C19_sign_zero : forall (R : fops) (leb : R -> R -> bool) (c : ctor) (p : label) (kw : dict (jval R)) (cmp : lcomp R),
+  In c component_ctors -> In p (c_guards c) -> run_ctor R leb c kw = Ok cmp -> leb (f0 R) (f0 R) = true ->
+  exists cmp', run_ctor R leb c (dset kw p (JNum (f0 R))) = Ok cmp'
+    /\ lc_type cmp' = lc_type cmp /\ lc_id cmp' = lc_id cmp /\ lc_nodes cmp' = lc_nodes cmp
+    /\ (exists key, In (key, VParam p) (c_values c))
+    /\ (forall key, In (key, VParam p) (c_values c) -> In (key, JNum (f0 R)) (lc_value cmp')).
+Proof. exact sign_zero. Qed.
+Print Assumptions C19_sign_zero.
+(* the same when loaded: a component description that loads, with a guarded value made negative, raises ValueError *)
+Theorem C19_sign_loaded : forall (R : fops) (leb : R -> R -> bool) (d vd : dict (jval R)) (idv nv : jval R) (t f : label) (c : ctor)
+  (p : label) (cmp : lcomp R) (x : R),
+  dget d s_id = Some idv -> dget d s_value = Some (JDict vd) -> dget d s_type = Some (JStr t) -> dget d s_nodes = Some nv ->
+  tfind t circuit_loader_table = Some f -> find_ctor_fun f = Some c -> In p (c_guards c) ->
+  generate_component R leb (JDict d) = Ok cmp -> ltb0 R leb x = true ->
+  generate_component R leb (JDict (dset d s_value (JDict (dset vd p (JNum x))))) = Err EValue.
+Proof. exact loaded_negative. Qed.
+Print Assumptions C19_sign_loaded.
+(* which parameters are guarded: Properties/C07.v, C07_guards (R, G, C, L, w, P, V_ref per kind) *)
+
+(* an unknown waveform name: UnknownWavetype from both periodic constructors (the only ones with
+   c_checks_wavetype, C07_wavetype_checked), whatever the other arguments — negative ones included *)
+Theorem C19_unknown_wavetype : forall (R : fops) (leb : R -> R -> bool) (c : ctor) (kw env : dict (jval R)) (v : jval R),
+  c_checks_wavetype c = true -> bind_params R (c_params c) kw = Ok env -> dget kw s_wavetype = Some v ->
+  (forall w, v = JStr w -> lmem w wavetypes = false) -> run_ctor R leb c kw = Err EUnknownWavetype.
+Proof. exact ctor_unknown_wavetype. Qed.
+Print Assumptions C19_unknown_wavetype.
+
+(* ================= B. Network(...) : duplicates, floating reference — every position and multiplicity ================= *)
+Theorem C19_dup : forall (K : fops) (l1 l2 l3 : list (branch K)) (c c' : branch K) (z : label), bid c = bid c' ->
+  let n := {| branches := l1 ++ c :: l2 ++ c' :: l3; zero := z |} in
+  (In z (terminals K n) -> validate n = Err EAmbiguousIDs) /\ (~ In z (terminals K n) -> validate n = Err EFloatingGround).
+Proof. exact validate_duplicate. Qed.
+Print Assumptions C19_dup.
+Theorem C19_floating : forall (K : fops) (n : network K),
+  branches n <> [] -> ~ In (zero n) (map node1 (branches n) ++ map node2 (branches n)) -> validate n = Err EFloatingGround.
+Proof. exact validate_floating. Qed.
+Print Assumptions C19_floating.
+
+(* ================= C. Circuit(...) : duplicate component ids, several grounds ================= *)
+(* never accepted; the exception is the documented one when the earlier statements of __post_init__ do not raise first
+   (a ground component without terminals is an IndexError there) *)
+Theorem C19_dup_components : forall (R : fops) (l1 l2 l3 : list (comp R)) (c c' : comp R), cid c = cid c' ->
+  let cs := l1 ++ c :: l2 ++ c' :: l3 in
+  (forall g, ground_node R cs <> Ok g)
+  /\ ((List.length (filter (is_ground R) cs) <= 1)%nat -> grounds_have_node R cs -> first_has_node R cs ->
+      ground_node R cs = Err EAmbiguousComponent).
+Proof. exact ground_duplicate. Qed.
+Print Assumptions C19_dup_components.
+Theorem C19_grounds : forall (R : fops) (l1 l2 l3 : list (comp R)) (g1 g2 : comp R), is_ground R g1 = true -> is_ground R g2 = true ->
+  let cs := l1 ++ g1 :: l2 ++ g2 :: l3 in
+  (forall g, ground_node R cs <> Ok g) /\ (grounds_have_node R cs -> ground_node R cs = Err EMultipleGround).
+Proof. exact ground_multiple. Qed.
+Print Assumptions C19_grounds.
+
+(* ================= D. load_network : unknown kinds, missing fields, at any position ================= *)
+(* whatever loads before it ([pre]) and whatever follows ([post]), the first entry that raises decides; a KeyError
+   becomes FileExistsError *)
+Theorem C19_position : forall (R : fops) (pi : R) (cis : R -> R * R) (pre post : list (jval R)) (e : jval R) bs x,
+  fst (entries_st R pi cis true pre) = Ok bs -> fst (entry_to_branch_st R pi cis true e) = Err x ->
+  load_network R pi cis (JList (pre ++ e :: post)) = keyerror_to_fileexists (Err x).
+Proof. exact load_network_first_error. Qed.
+Print Assumptions C19_position.
+Theorem C19_unknown_kind : forall (R : fops) (pi : R) (cis : R -> R * R) (pre post : list (jval R)) (d : dict (jval R)) (t : label) bs,
+  fst (entries_st R pi cis true pre) = Ok bs ->
+  dget d s_N1 <> None -> dget d s_N2 <> None -> dget d s_id <> None -> dget d s_type = Some (JStr t) -> find_lentry t = None ->
+  load_network R pi cis (JList (pre ++ JDict d :: post)) = Err EFileExists.
+Proof. exact load_network_unknown_type. Qed.
+Print Assumptions C19_unknown_kind.
+Theorem C19_missing_field : forall (R : fops) (pi : R) (cis : R -> R * R) (pre post : list (jval R)) (d : dict (jval R)) bs,
+  fst (entries_st R pi cis true pre) = Ok bs ->
+  dget d s_N1 = None \/ dget d s_N2 = None \/ dget d s_id = None \/ dget d s_type = None ->
+  load_network R pi cis (JList (pre ++ JDict d :: post)) = Err EFileExists.
+Proof. exact load_network_missing_header. Qed.
+Print Assumptions C19_missing_field.
+(* a documented entry (Properties/C17.v, C17_documented_kinds) with one required value key left out: KeyError (hence
+   FileExistsError from load_network, by C19_position) for a key in complex notation, TypeError for a plain parameter;
+   required = all keys but the optional Y / Z of the source kinds *)
+Theorem C19_missing_value : forall (R : fops) (pi : R) (cis : R -> R * R) (e : espec R) (key : label),
+  espec_ok R e -> In key (required_keys R (e_kind R e)) ->
+  fst (entry_to_branch_st R pi cis true (entry_without R e key))
+  = Err (if lmem key (k_cplx R (e_kind R e)) then EKeyError else ETypeError).
+Proof. exact entry_missing_value. Qed.
+Print Assumptions C19_missing_value.
+
+(* ================= E. generate_component / undictify_circuit : typed errors in the coded precedence ================= *)
+Theorem C19_component_missing_id : forall (R : fops) (leb : R -> R -> bool) (d : dict (jval R)),
+  dget d s_id = None -> generate_component R leb (JDict d) = Err EUnidentified.
+Proof. exact generate_missing_id. Qed.
+Theorem C19_component_missing_value : forall (R : fops) (leb : R -> R -> bool) (d : dict (jval R)),
+  dget d s_id <> None -> dget d s_value = None -> generate_component R leb (JDict d) = Err EIncorrectInfo.
+Proof. exact generate_missing_value. Qed.
+Theorem C19_component_missing_type : forall (R : fops) (leb : R -> R -> bool) (d : dict (jval R)),
+  dget d s_id <> None -> dget d s_value <> None -> dget d s_type = None -> generate_component R leb (JDict d) = Err EIncorrectInfo.
+Proof. exact generate_missing_type. Qed.
+Theorem C19_component_missing_nodes : forall (R : fops) (leb : R -> R -> bool) (d : dict (jval R)),
+  dget d s_id <> None -> dget d s_value <> None -> dget d s_type <> None -> dget d s_nodes = None ->
+  generate_component R leb (JDict d) = Err EIncorrectInfo.
+Proof. exact generate_missing_nodes. Qed.
+Theorem C19_component_unknown_kind : forall (R : fops) (leb : R -> R -> bool) (d : dict (jval R)) (t : label),
+  dget d s_id <> None -> dget d s_value <> None -> dget d s_nodes <> None ->
+  dget d s_type = Some (JStr t) -> tfind t circuit_loader_table = None -> generate_component R leb (JDict d) = Err EUnknownComponent.
+Proof. exact generate_unknown_type. Qed.
+Print Assumptions C19_component_missing_id. Print Assumptions C19_component_missing_value.
+Print Assumptions C19_component_missing_type. Print Assumptions C19_component_missing_nodes.
+Print Assumptions C19_component_unknown_kind.
+Theorem C19_component_position : forall (R : fops) (leb : R -> R -> bool) (d : dict (jval R)) (pre post : list (jval R)) (e : jval R) cs x,
+  dget d s_components = Some (JList (pre ++ e :: post)) -> mapR (generate_component R leb) pre = Ok cs ->
+  generate_component R leb e = Err x -> undictify_circuit R leb (JDict d) = Err x.
+Proof. exact undictify_circuit_first_error. Qed.
+Print Assumptions C19_component_position.
+
+(* ================= F. queries for unknown identifiers ================= *)
+Theorem C19_unknown_id_voltage : forall (K : fops) (s : solution K) (id : label),
+  ~ In id (branch_ids (s_net s)) -> get_voltage s id = Err EKeyError.
+Proof. exact get_voltage_unknown. Qed.
+Theorem C19_unknown_id_current : forall (K : fops) (s : solution K) (id : label),
+  ~ In id (branch_ids (s_net s)) -> get_current s id = Err EKeyError.
+Proof. exact get_current_unknown. Qed.
+Theorem C19_unknown_id_power : forall (K : fops) (s : solution K) (id : label),
+  ~ In id (branch_ids (s_net s)) -> get_power s id = Err EKeyError.
+Proof. exact get_power_unknown. Qed.
+Theorem C19_unknown_id_potential : forall (K : fops) (s : solution K) (l : label),
+  ~ In l (node_labels (s_net s)) -> l <> zero (s_net s) -> get_potential s l = Err EKeyError.
+Proof. exact get_potential_unknown. Qed.
+Print Assumptions C19_unknown_id_voltage. Print Assumptions C19_unknown_id_current.
+Print Assumptions C19_unknown_id_power. Print Assumptions C19_unknown_id_potential.
+
+(* ================= G. an accepted description is stored unaltered ================= *)
+Theorem C19_stored_network : forall (K : fops) (n n' : network K), validate n = Ok n' -> n' = n.
+Proof. exact validate_stored. Qed.
+Print Assumptions C19_stored_network.
+(* an accepted network description: exactly the branches its entries denote, in order, reference "0" *)
+Theorem C19_stored_loaded : forall (R : fops) (pi : R) (cis : R -> R * R) (l : list (jval R)) (n : network (Cx R)),
+  load_network R pi cis (JList l) = Ok n ->
+  mapR (fun e => fst (entry_to_branch_st R pi cis true e)) l = Ok (branches n) /\ zero n = s_zero.
+Proof. exact load_network_stored. Qed.
+Print Assumptions C19_stored_loaded.
+(* an accepted circuit description: exactly the components its entries generate, in order (Circuit.__post_init__ only
+   computes the reference label: ground_node returns a label, the list is the argument) *)
+Theorem C19_stored_circuit : forall (R : fops) (leb : R -> R -> bool) (d : dict (jval R)) (cs : list (lcomp R)) (g : label),
+  undictify_circuit R leb (JDict d) = Ok (cs, g) ->
+  exists es, dget d s_components = Some (JList es) /\ mapR (generate_component R leb) es = Ok cs.
+Proof. exact undictify_circuit_stored. Qed.
+Print Assumptions C19_stored_circuit.
+(* an accepted constructor call: the type of the table, the identifier and the terminals passed (values:
+   C17_component_values) *)
+Theorem C19_stored_component : forall (R : fops) (leb : R -> R -> bool) (c : ctor) (kw : dict (jval R)) (cmp : lcomp R) (i : label) (ns : list label),
+  run_ctor R leb c kw = Ok cmp -> dget kw s_id = Some (JStr i) -> dget kw s_nodes = Some (JList (map (fun n => JStr n) ns)) ->
+  lc_type cmp = c_type c /\ lc_id cmp = i /\ lc_nodes cmp = ns.
+Proof. exact ctor_stored. Qed.
+Print Assumptions C19_stored_component.
+
+(* ================= examples over the rationals: the hypotheses are satisfiable ================= *)
+Definition qn (n : Z) (d : positive) : jval Qcops := JNum (qc n d : Qcops).
+Definition ex_kw : dict (jval Qcops) :=
+  [(s_id, JStr (lbl "U")); (s_nodes, JList [JStr (lbl "a"); JStr (lbl "b")]); (s_wavetype, JStr (lbl "rect"));
+   (lbl "V", qn 5 1); (lbl "w", qn 100 1); (lbl "R", qn 2 1)]%string.
+Definition perv : ctor := nth 9 component_ctors (nth 0 component_ctors (Build_ctor [] [] [] [] [] false)).
+(* periodic_voltage_source: an accepted call (phi defaulted), guarded parameters R and w; w negative -> ValueError, w
+   zero -> accepted, unknown waveform -> UnknownWavetype even with w negative *)
+Example C19_example_ctor :
+  label_eqb (c_fun perv) (lbl "periodic_voltage_source") = true
+  /\ is_ok (run_ctor Qcops Qc_leb perv ex_kw) (fun c => label_eqb (lc_type c) (lbl "periodic_voltage_source")) = true
+  /\ lmem (lbl "w") (c_guards perv) = true /\ lmem (lbl "R") (c_guards perv) = true
+  /\ ltb0 Qcops Qc_leb (qc (-1) 1000) = true /\ Qc_leb 0 0 = true
+  /\ is_err (run_ctor Qcops Qc_leb perv (dset ex_kw (lbl "w") (qn (-1) 1000))) EValue = true
+  /\ is_ok (run_ctor Qcops Qc_leb perv (dset ex_kw (lbl "w") (qn 0 1)))
+           (fun c => match dget (lc_value c) (lbl "w") with Some (JNum q) => Qc_eq_bool q 0 | _ => false end) = true
+  /\ is_err (run_ctor Qcops Qc_leb perv (dset (dset ex_kw (lbl "w") (qn (-1) 1)) s_wavetype (JStr (lbl "square")))) EUnknownWavetype = true.
+Proof. vm_compute. repeat split. Qed.
+(* every constructor has an accepted call; every guarded parameter of every constructor rejects -1 and accepts 0
+   (the general theorems above, instantiated on the whole table by computation) *)
+Definition sample_value (p : str) : jval Qcops :=
+  if label_eqb p s_id then JStr (lbl "X") else if label_eqb p s_nodes then JList [JStr (lbl "a"); JStr (lbl "b")]
+  else if label_eqb p s_wavetype then JStr (lbl "saw") else qn 3 2.
+Definition sample_kw (c : ctor) : dict (jval Qcops) := map (fun pd => (fst pd, sample_value (fst pd))) (c_params c).
+Example C19_example_all_constructors :
+  forallb (fun c => is_ok (run_ctor Qcops Qc_leb c (sample_kw c)) (fun _ => true)
+                    && forallb (fun p => is_err (run_ctor Qcops Qc_leb c (dset (sample_kw c) p (qn (-1) 1))) EValue
+                                         && is_ok (run_ctor Qcops Qc_leb c (dset (sample_kw c) p (qn 0 1))) (fun _ => true))
+                               (c_guards c))
+          component_ctors = true
+  /\ List.length (flat_map c_guards component_ctors) = 18%nat.
+Proof. vm_compute. split; reflexivity. Qed.
+
+Definition ex_good : list (jval Qcops) :=
+  [JDict [(s_type, JStr (lbl "resistor")); (s_id, JStr (lbl "R1")); (s_N1, JStr (lbl "0")); (s_N2, JStr (lbl "1")); (s_R, qn 10 1)];
+   JDict [(s_type, JStr (lbl "conductor")); (s_id, JStr (lbl "G")); (s_N1, JStr (lbl "1")); (s_N2, JStr (lbl "0")); (s_G, qn 1 2)]]%string.
+Definition qpi : Qc := qc 355 113.
+Definition qcis (x : Qc) : Qc * Qc := (1%Qc, 0%Qc).
+Definition bad_kind : jval Qcops :=
+  JDict [(s_type, JStr (lbl "resistance")); (s_id, JStr (lbl "R2")); (s_N1, JStr (lbl "0")); (s_N2, JStr (lbl "1")); (s_R, qn 10 1)]%string.
+Definition no_n2 : jval Qcops := JDict [(s_type, JStr (lbl "resistor")); (s_id, JStr (lbl "R2")); (s_N1, JStr (lbl "0")); (s_R, qn 10 1)]%string.
+Definition dup_id : jval Qcops :=
+  JDict [(s_type, JStr (lbl "resistor")); (s_id, JStr (lbl "G")); (s_N1, JStr (lbl "0")); (s_N2, JStr (lbl "1")); (s_R, qn 10 1)]%string.
+(* the valid prefix loads; with the faulty entry first, in the middle or last the description is rejected *)
+Example C19_example_loader :
+  is_ok (fst (entries_st Qcops qpi qcis true ex_good)) (fun _ => true) = true
+  /\ is_ok (load_network Qcops qpi qcis (JList ex_good)) (fun n => Nat.eqb (List.length (branches n)) 2) = true
+  /\ forallb (fun bad => is_err (load_network Qcops qpi qcis (JList (bad :: ex_good))) EFileExists
+                         && is_err (load_network Qcops qpi qcis (JList (ex_good ++ [bad]))) EFileExists
+                         && is_err (load_network Qcops qpi qcis (JList (firstn 1 ex_good ++ bad :: skipn 1 ex_good))) EFileExists)
+             [bad_kind; no_n2] = true
+  /\ is_err (load_network Qcops qpi qcis (JList (dup_id :: ex_good))) EAmbiguousIDs = true
+  /\ is_err (load_network Qcops qpi qcis (JList (ex_good ++ [dup_id]))) EAmbiguousIDs = true
+  /\ is_err (load_network Qcops qpi qcis (JList (skipn 1 (map (fun e => match e with
+                 | JDict d => JDict (dset (dset d s_N1 (JStr (lbl "p"))) s_N2 (JStr (lbl "q"))) | x => x end) ex_good)))) EFloatingGround = true.
+Proof. vm_compute. repeat split. Qed.
